@@ -100,8 +100,8 @@ func c10Doc(t *rapid.T) ([]byte, string) {
 		cmds, _ := gen.DB(t, gen.CmdOpts{Platforms: true, Unicode: true, Irregular: true, Sized: true, Long: true, Heavy: true}, []int{1, 2, 3, 8, 0})
 		if rapid.Bool().Draw(t, "hostile-field") && len(cmds) > 0 {
 			i := rapid.IntRange(0, len(cmds)-1).Draw(t, "i")
-			cmds[i].Command = rapid.SampledFrom([]string{"a\x00b", "\x00", "kill\x00all", "x\xffy", "\x1b[0m"}).Draw(t, "hc") + cmds[i].Command
-			cmds[i].Description += rapid.SampledFrom([]string{"\x00", " \x00 tail", ""}).Draw(t, "hd")
+			cmds[i].Command = rapid.SampledFrom([]string{"a\x00b", "\x00", "kill\x00all", "x\xffy", "\x1b[0m", "ab\xe2\x00cd ", "x\xc3\x00y", "a\xf0\x00\x00\x00z", "k\xe2\x82\x00l", "\xc2\x00", "ab\xe2"}).Draw(t, "hc") + cmds[i].Command
+			cmds[i].Description += rapid.SampledFrom([]string{"\x00", " \x00 tail", "", " lead\xe2\x00tail", "\xf0\x9f\x00"}).Draw(t, "hd")
 		}
 		doc := gen.EmitYAML(cmds)
 		if utf8.Valid(doc) {
